@@ -356,3 +356,44 @@ Example C03_predict_stable_example : forall orc : Num.oracle,
   Predict.theta_predict orc Predict.KMean w_theta (pred_view w_train) = Ok [qz 22; qz 22; qz 34; qz 34] /\
   Predict.theta_predict orc Predict.KMean w_theta (pred_view w_repaired) = Ok [qz 22; qz 22; qz 34; qz 34].
 Proof. exact predict_stable_example. Qed.
+
+(* ---- the hold-out split linked to the source at the ID / MAPPING level (gap review g1, C03 gap 2) ----
+   `src_balanced_holdout_ids` is the WHOLE function create_plate_balanced_holdout_set_among_masked_plates of /repo's current
+   retrospective.py, re-translated on every run (configuration C03_BALANCED_HOLDOUT -> Generated/SrcHoldoutIds.v) with `screen` the
+   model Screen (rows, ids, mappings) and the two Screen(...) calls the model's constructor applied to the keyword arguments THE CALL
+   SITES pass (a call site that stopped passing treatment_mapping= / sample_mapping= translates to None there and the link fails).
+   Holdout.balanced_holdout_ids = the selection vector the loop computes from the recorded rng.choice answers (C11's model of the
+   loop), then Holdout.holdout_split: the hand model every theorem above is about. *)
+From Batchie Require Model.Retro Model.RetroHoldout Generated.SrcHoldoutIds Proofs.C03Source_Holdout Proofs.C03Source_HoldoutLifecycle.
+Theorem C03_model_is_source_holdout : forall num den counts p ds,
+  SrcHoldoutIds.src_balanced_holdout_ids num den counts p ds = balanced_holdout_ids num den counts p ds.
+Proof. exact C03Source_Holdout.src_balanced_holdout_ids_is_model. Qed.
+Print Assumptions C03_model_is_source_holdout.
+
+(* whatever the translated hold-out returns is holdout_split of the parent for a selection vector of the screen's length *)
+Theorem C03_source_holdout_is_split : forall num den counts p ds pr ds',
+  SrcHoldoutIds.src_balanced_holdout_ids num den counts p ds = Ok (pr, ds') ->
+  exists sel, length sel = length (s_rows p) /\ holdout_split p sel = Ok pr.
+Proof. exact C03Source_Holdout.src_holdout_is_split. Qed.
+Print Assumptions C03_source_holdout_is_split.
+
+(* both halves the translated hold-out returns carry the parent's mappings and number their rows by them *)
+Theorem C03_source_holdout_keeps_mappings : forall num den counts p ds pr ds' test,
+  SrcHoldoutIds.src_balanced_holdout_ids num den counts p ds = Ok (pr, ds') -> frozen_to p (half test pr).
+Proof. exact C03Source_Holdout.src_holdout_frozen. Qed.
+Print Assumptions C03_source_holdout_keeps_mappings.
+
+(* ids_frozen with EVERY step a translated source function: translated hold-out, then any history of the translated
+   reveal_plates / mask_screen / unmask_screen (and save + load) on either half *)
+Theorem C03_ids_frozen_of_source_full : forall num den counts p ds test ops s,
+  C03Source_HoldoutLifecycle.src_lifecycle_full num den counts p ds test ops = Ok s -> frozen_to p s.
+Proof. exact C03Source_HoldoutLifecycle.ids_frozen_of_source_full. Qed.
+Print Assumptions C03_ids_frozen_of_source_full.
+
+(* non-vacuity: the translated hold-out on the witness parent (fraction 1, rng.choice answered [1; 0] for the one unobserved plate)
+   returns the halves with the parent's sample ids 1 1 2 2 / 0 0 *)
+Example C03_source_holdout_example :
+  option_map (fun x => (s_sids (fst (fst x)), s_sids (snd (fst x)), snd x))
+             (match SrcHoldoutIds.src_balanced_holdout_ids 1 1 None w_parent [Retro.DInts [1%nat; 0%nat]] with Ok x => Some x | Err _ => None end)
+  = Some ([1; 1; 2; 2], [0; 0], []).
+Proof. vm_compute. reflexivity. Qed.
